@@ -22,6 +22,7 @@ type request struct {
 	cb      ndn.ExpressCallbackFunc
 	pending bool
 	flying  bool
+	dup     bool // dropped by the network: no nonce, or (name, nonce) already carried
 }
 
 // hEngine is the harness implementation of ndn.Engine. It never calls back on its own: Express
@@ -72,7 +73,27 @@ func (e *hEngine) Express(interest *ndn.EncodedInterest, cb ndn.ExpressCallbackF
 		cb = func(ndn.ExpressCallbackArgs) {}
 	}
 	n := interest.FinalName.Clone()
-	e.in.net = append(e.in.net, &request{name: n, nameS: n.String(), cbp: interest.Config.CanBePrefix,
-		wire: interest.Wire.Join(), cb: cb, pending: true, flying: true})
+	r := &request{name: n, nameS: n.String(), cbp: interest.Config.CanBePrefix,
+		wire: interest.Wire.Join(), cb: cb, pending: true, flying: true}
+	// The network behaves like a forwarder in one respect: it remembers (name, nonce) of every
+	// Interest it carried (for the whole history: lifetimes are short compared with a dead nonce
+	// list) and silently drops an Interest that repeats one or that carries no nonce. The Interest
+	// stays pending at the consumer and can only time out. This is default behaviour, not a deviation.
+	pi, _, err := spec.Spec{}.ReadInterest(enc.NewBufferReader(r.wire))
+	if err != nil {
+		panic(fmt.Sprintf("Interest %s expressed by the client does not parse: %v", r.nameS, err))
+	}
+	if nv := pi.Nonce(); nv == nil {
+		r.flying, r.dup = false, true
+		e.in.nonceDrops++
+	} else {
+		k := fmt.Sprintf("%s#%d", r.nameS, *nv)
+		if e.in.nonces[k] {
+			r.flying, r.dup = false, true
+			e.in.nonceDrops++
+		}
+		e.in.nonces[k] = true
+	}
+	e.in.net = append(e.in.net, r)
 	return nil
 }
